@@ -353,7 +353,8 @@ async def history_cases(chk, rng, reps, count):
         hist = []
         dead = False
         for step in range(rng.randrange(2, 7)):
-            op = rng.choice(["names", "names", "charset", "var-client", "var-results", "cu", "cu-none", "probe", "probe", "names-bad", "names-default", "multi"])
+            op = rng.choice(["names", "names", "charset", "var-client", "var-results", "cu", "cu-none", "probe", "probe", "names-bad", "names-default", "multi",
+                             "reset"])
             c0 = cl.cc
             if op in ("names", "names-bad"):
                 cs = rng.choice(UNUSABLE if op == "names-bad" else SWITCHABLE)
@@ -399,6 +400,17 @@ async def history_cases(chk, rng, reps, count):
                 cl.rc = cs1   # the first assignment stays even if the second is rejected
                 if st == "ok":
                     cl.cc = cs2
+            elif op == "reset":
+                # COM_RESET_CONNECTION is not among the events that change the character sets: whatever it resets, the
+                # client goes on sending in the set it negotiated and must be understood
+                out = await a.cmd(b"\x1f", n=20)
+                st = classify_simple(out)
+                if st != "ok":
+                    chk.fail("COM_RESET_CONNECTION not answered with OK", dict(history=hist), out[0][1][:60].hex() if out else None)
+                await probe_all(chk, rng, cl, app, reps, dict(history=list(hist) + [("reset", cl.cc, cl.rc)]))
+                hist.append(("reset", cl.cc, cl.rc, st))
+                chk.count("switch:reset:" + st)
+                continue
             elif op in ("cu", "cu-none"):
                 if cl.cc in WIDE:
                     continue
